@@ -244,6 +244,16 @@ pub fn run_one(sc: &Scenario, prefix: &[usize], props: &[&str]) -> ExecResult {
                     let _ = store2.insert_frame(&pre_frames[k.parse::<usize>().unwrap()]);
                     continue;
                 }
+                if let Some(rest) = op.act.strip_prefix("moveimport:") {
+                    // the stored frame k is imported again under its id into another context
+                    let mut it = rest.split(':');
+                    let k: usize = it.next().unwrap().parse().unwrap();
+                    let c: usize = it.next().unwrap().parse().unwrap();
+                    let mut f = pre_frames[k].clone();
+                    f.context_id = ctx_ids[c];
+                    let _ = store2.insert_frame(&f);
+                    continue;
+                }
                 if let Some(k) = op.act.strip_prefix("remove:") {
                     let _ = store2.remove(&pre_frames[k.parse::<usize>().unwrap()].id);
                     continue;
@@ -521,6 +531,13 @@ pub fn run_one(sc: &Scenario, prefix: &[usize], props: &[&str]) -> ExecResult {
         }
         let all_ids: BTreeSet<Scru128Id> = app.iter().map(|a| a.frame.id).collect();
         let rank = |id: &Scru128Id| all_ids.iter().position(|x| x == id).map(|r| r.to_string()).unwrap_or("s".into());
+        let unstable: BTreeSet<Scru128Id> = sc
+            .writers
+            .iter()
+            .flatten()
+            .filter_map(|op| op.act.split(':').nth(1).and_then(|k| k.parse::<usize>().ok()))
+            .filter_map(|k| pre_ids.get(k).cloned())
+            .collect();
         for (ri, rs) in sc.readers.iter().enumerate() {
             let log = reader_logs[ri].lock().unwrap();
             let g_start = starts.get(&ri).cloned().unwrap_or(usize::MAX);
@@ -570,7 +587,7 @@ pub fn run_one(sc: &Scenario, prefix: &[usize], props: &[&str]) -> ExecResult {
             }
             // the subscription is taken in the step that follows the grant of `read.lock`
             let g_sub = steps.iter().position(|s| s.who.kind == "rd" && s.who.n as usize == ri + 1 && s.op == "read.lock").map(|p| p + 1).unwrap_or(g_start);
-            check_reader(ri, rs, &log, g_start, g_sub, &app, &ctx_ids, &pre_ids, &senders, late_beats, &mut findings, props, probed || !sc.probe, sc.clock_jump, sc.clock_actor);
+            check_reader(ri, rs, &log, g_start, g_sub, &app, &ctx_ids, &pre_ids, &senders, late_beats, &mut findings, props, probed || !sc.probe, sc.clock_jump, sc.clock_actor, &unstable);
             outcome.push_str(&format!(
                 "r{}:[{}]{};",
                 ri,
@@ -793,6 +810,7 @@ fn check_reader(
     final_phase: bool,
     clock_jump: bool,
     time_optional: bool,
+    unstable: &BTreeSet<Scru128Id>,
 ) {
     let follow = rs.follow != "off";
     let scope = rs.ctx.map(|c| ctx_ids[c]);
@@ -834,6 +852,11 @@ fn check_reader(
             forbidden.insert(a.frame.id);
             continue;
         }
+        if unstable.contains(&a.frame.id) {
+            // a frame that another actor removes / re-imports / moves while the read runs: what
+            // the reader owes depends on the instant; only the scope rule applies to it
+            continue;
+        }
         if time_optional && a.writer.is_none() && matches!(a.frame.ttl, Some(TTL::Time(_))) {
             // whether it is still alive depends on when the clock actor ran (judged separately)
             continue;
@@ -858,6 +881,15 @@ fn check_reader(
                 forbidden.insert(a.frame.id);
             } else if began_after_sub && follow {
                 required.push(a);
+            }
+        }
+    }
+    // whatever happens to a frame while the read is under way: a scoped read never hands out a
+    // frame that carries another context
+    if let Some(c) = scope {
+        for f in &real {
+            if f.context_id != c && (c06 || c03) {
+                findings.push(Finding { kind: "follow.foreign".into(), msg: format!("{}: delivered frame {} ({}) which carries context {}", name, f.id, f.topic, f.context_id) });
             }
         }
     }
@@ -1098,6 +1130,17 @@ pub fn scenarios(prop: &str, tier: &str) -> Vec<Scenario> {
                 s.bound = Some(1);
                 v.push(s);
             }
+            // a frame of the reader's scope is moved to another context (imported again under its
+            // id) while the replay is under way
+            let mut s = base("ctx-replay-vs-move");
+            s.contexts = 2;
+            s.cap_delivery = Some(1);
+            s.pre = vec![fs("h", 1, ""), fs("h", 1, ""), fs("h", 1, "")];
+            s.writers = vec![vec![act("moveimport:2:2")]];
+            let mut r = rd("on", false, None, None, Some(1));
+            r.eager = false;
+            s.readers = vec![r];
+            v.push(s);
             // scoped reader resuming from a last-id inside its context
             let mut s = base("h2-ctx-lastid-1w2");
             s.contexts = 1;
@@ -1320,6 +1363,15 @@ pub fn scenarios(prop: &str, tier: &str) -> Vec<Scenario> {
             s.pre = vec![fs("a", 2, "")];
             s.writers = vec![vec![fs("a", 1, ""), fs("a", 2, ""), fs("a", 0, "ephemeral")]];
             s.readers = vec![rd("on", true, None, None, Some(2)), rd("on", true, None, None, Some(0))];
+            v.push(s);
+            let mut s = base("ctx-replay-vs-move");
+            s.contexts = 2;
+            s.cap_delivery = Some(1);
+            s.pre = vec![fs("h", 1, ""), fs("h", 1, ""), fs("h", 1, "")];
+            s.writers = vec![vec![act("moveimport:2:2")]];
+            let mut r = rd("on", false, None, None, Some(1));
+            r.eager = false;
+            s.readers = vec![r];
             v.push(s);
             let mut s = base("ctx-lastid-limit");
             s.contexts = 2;
